@@ -114,6 +114,20 @@ def edit_in_place(I, kind, blk, n, how):
     """how = "blank": frame 0 of the first item becomes wholly missing;
     how = "fill": it becomes present with fresh symbolic values.  The item's own arrays are
     written through (element assignment), as a user filling or cutting a gap would do."""
+    if kind == "events":
+        # the first (sequence) event gets a value array of another length / the list grows
+        ev = list(blk)[0]
+        if how == "values":
+            ev.values = I.farray("edit.v", (len(ev.values) + 1,))
+        else:
+            m = I.mod("tdfEvents")
+            blk.events.append(m.Event(I.label("edit.lab", 1), I.farray("edit.v", (1,)), m.EventsDataType(0)))
+        return []
+    if kind == "optical":
+        m = I.mod("tdfOpticalSystem")
+        blk.channels.append(m.OpticalChannelData(I.ibv("edit.idx", "i32"), I.label("edit.l", 1), I.label("edit.t", 1), I.label("edit.n", 1),
+                                                 I.mod("tdfTypes").CameraViewPort(I.iarray("edit.vo", 2, "i32"), I.iarray("edit.vs", 2, "i32"))))
+        return []
     t = tracks_of(kind, blk)[0]
     comps = all_components(I, kind, t, n)
     news = []
@@ -330,6 +344,10 @@ def shapes(tier: str, pid: str):
     for kind, key in (("data3d", "tracks"), ("emg", "signals"), ("force3d", "tracks"), ("fpdata", "plats")):
         # the same float32 values handed over as a big-endian array
         A((kind, {"n": 2, key: 1, "lab": [1], "links": 0, "given": ">f4"}))
+    # item lists edited through the public list after a first encoding
+    A(("events", {"events": [(1, 1), (0, 1)], "lab": [1, 0], "edit": "values"}))
+    A(("events", {"events": [(1, 2)], "lab": [2], "edit": "append"}))
+    A(("optical", {"channels": 1, "lab": [2], "edit": "append"}))
     if pid == "C02":
         # sizes must agree also when a deciding component is +-inf (stored as a gap)
         for kind, key in (("data3d", "tracks"), ("emg", "signals"), ("force3d", "tracks"), ("fpdata", "plats")):
